@@ -30,7 +30,11 @@ for log in logs:
 for (pid, n), r in sorted(res.items()):
     src = '/tmp/wt-%s/out' % pid
     k = n
-    if n >= 9:
+    if n >= 11:
+        # sixth round: /tmp/w6m-<id>/out/mutant{1,2} become <id>-11 and <id>-12
+        src = '/tmp/w6m-%s/out' % pid
+        k = n - 10
+    elif n >= 9:
         # fifth round: /tmp/w5m-<id>/out/mutant{1,2} become <id>-9 and <id>-10
         src = '/tmp/w5m-%s/out' % pid
         k = n - 8
